@@ -827,3 +827,9 @@ package frugal
 //@   ensures result == "frugal." + subject
 //@ func lib.fStompPublisherTransport.formatStompPublishTopic
 //@   ensures result == "/topic/" + m.topicPrefix + "frugal." + topic
+
+// A frame handed to the registry is a buffer of its own: readFrame allocates it, the read loop passes
+// exactly that buffer on (C01: a parked response is never overwritten by a later one).
+//@ func lib.fAdapterTransport.readFrame
+//@   ensures err == nil ==> fresh(result)
+//@   modifies *
